@@ -217,6 +217,11 @@ def build_qcow2_meta(recipe):
     if "backing" in t.files:
         files["backing"] = t.files["backing"]
     info = {"branches": br, "nontrivial": len(lens) + len(snaps) >= 2 or bn is not None, "has_data": "data" in t.files, "has_backing": bn is not None}
+    # the snapshot table as input of the Lean writer `Hv.MetaEnc.encodeSnaps` (theorem snapshot_table_roundtrip): only tables whose
+    # extra data have one of the forms the writer knows (absent, 16, 24, longer with an unknown tail)
+    if snaps and all(sn["extra_data_size"] in (0, 16, 24) or sn["extra_data_size"] > 24 for sn in snaps):
+        info["snap_table"] = {"off": d["snapshots_offset"],
+                              "snaps": [dict(sn, xraw=s0["xraw"]) for sn, s0 in zip(snaps, r["snaps"])]}
     return files, qcow2_answers(d), info
 
 
